@@ -58,6 +58,12 @@ Definition tol_text : Q := 1 # 1000000000.
 Definition text_close (a b : Q) : bool :=
   Qle_bool (Qabs (a - b)) ((1 # 10000000000) + tol_text * Qabs a).
 
+(* a printed number rq (10 decimals) whose canonical quantity is qr, against the expected canonical
+   quantity: compare in the printed number's own unit, where the rounding error is 1e-10 absolute *)
+Definition text_quantity_close (expect rq qr : Q) : bool :=
+  if Qeq_bool rq 0 then Qle_bool (Qabs expect) (1 # 1000000)
+  else text_close (expect * rq / qr) rq || text_close rq (expect * rq / qr).
+
 Definition corr_with (c : case) (i : implres) : Z :=
   match model_result c, i with
   | RUnmodelled, _ => 2
@@ -160,7 +166,7 @@ Definition clause1_on (c : case) (i : implres) : bool :=
         match impl_q i with
         | Some (rq, us) =>
             let (qr, dr) := quantity rq us in
-            dv_eqb dr dexp && (match i with IText _ _ _ _ => Qle_bool (Qabs (expect - qr)) ((1 # 10000000) + tol_text * Qabs expect) | _ => q_close tol_rel qr expect end)
+            dv_eqb dr dexp && (match i with IText _ _ _ _ => text_quantity_close expect rq qr | _ => q_close tol_rel qr expect end)
         | None => false
         end
     end
@@ -195,7 +201,8 @@ Definition lone_family (u : string) : N :=
 (* K1: incompatible known units are kept / compare false instead of failing *)
 Definition known_K1 (c : case) : bool :=
   negb (compat c) && is_known_unit (c_ua c) && is_known_unit (c_ub c).
-(* K2: em/ex/ch, vmin/vmax and %/fr are converted with invented ratios *)
+(* (former class K2 - em/ex/ch, vmin/vmax, %/fr converted with invented ratios - is fixed in /repo;
+   the predicate is kept only to name those pairs in theorems) *)
 Definition known_K2 (c : case) : bool :=
   negb (String.eqb (c_ua c) (c_ub c)) && negb (lone_family (c_ua c) =? 0)%N
   && (lone_family (c_ua c) =? lone_family (c_ub c))%N.
@@ -209,7 +216,7 @@ Definition b2z (b : bool) : Z := if b then 1%Z else 0%Z.
 (* result: [corr; clause1 ok; known class covering clause1; clause2 ok; class; clause3 ok; class; compat] *)
 Definition run (c : case) : list Z :=
   [ corr c;
-    b2z (clause1 c); (if known_K2 c then 2 else if known_K3 c then 3 else 0)%Z;
-    b2z (clause2 c); (if known_K2 c then 2 else if known_K1 c then 1 else 0)%Z;
+    b2z (clause1 c); (if known_K3 c then 3 else 0)%Z;
+    b2z (clause2 c); (if known_K1 c then 1 else 0)%Z;
     b2z (clause3 c); 0%Z;
     b2z (compat c) ].
